@@ -151,6 +151,12 @@ class Categorize(Factory, Container):
         """Attempt to get key ``x``, returning an alternative if it does not exist."""
         return self.bins.get(x, default)
 
+    def _adopt(self, sub):
+        """Copy of another Categorize's bin; built on this container's template (if any) so that it stays fillable."""
+        if self.value is not None:
+            return self.value.zero() + sub
+        return sub.copy()
+
     @inheritdoc(Container)
     def zero(self):
         return Categorize(self.quantity, self.value)
@@ -167,7 +173,7 @@ class Categorize(Factory, Container):
                 elif k in self.bins:
                     out.bins[k] = self.bins[k].copy()
                 else:
-                    out.bins[k] = other.bins[k].copy()
+                    out.bins[k] = self._adopt(other.bins[k])
             return out.specialize()
 
         raise ContainerException(f"cannot add {self.name} and {other.name}")
@@ -180,7 +186,7 @@ class Categorize(Factory, Container):
                 if k in self.bins and k in other.bins:
                     self.bins[k] += other.bins[k]
                 elif k not in self.bins and k in other.bins:
-                    self.bins[k] = other.bins[k].copy()
+                    self.bins[k] = self._adopt(other.bins[k])
             return self
         raise ContainerException(f"cannot add {self.name} and {other.name}")
 
